@@ -155,8 +155,16 @@ func modelProperty(id string, st *Stats, f Features, checkVars bool) func(t *rap
 				}
 				st.Count("goregex_compared")
 				if !spansEqual(want2, mr.Spans, false) {
-					// the two oracles disagree: a harness error, never a verdict about vore
-					t.Fatalf("HARNESS oracle disagreement %q (re %q) on %q: model %s go %s", src, re, text, fmtSpans(mr.Spans, false), fmtSpans(want2, false))
+					// second opinion: the same translation with regexp/syntax's alternation
+					// factoring switched off (two go1.23 factoring bugs were met this way)
+					re2, _ := ToGoRegexSafe(seq, gm)
+					want3, err3 := GoRegexFindAll(re2, text)
+					if err3 == nil && spansEqual(want3, mr.Spans, false) {
+						st.Count("goregex_factoring_bug_sidestepped")
+					} else {
+						// the two oracles disagree: a harness error, never a verdict about vore
+						t.Fatalf("HARNESS oracle disagreement %q (re %q) on %q: model %s go %s", src, re, text, fmtSpans(mr.Spans, false), fmtSpans(want2, false))
+					}
 				}
 			}
 		}
